@@ -242,8 +242,25 @@ func deliverDriver(a Action) (err error) {
 		tx.Rollback()
 		return e
 	}
+	if driverRetry {
+		// the application gives its first attempt up (a successful local rollback) and tries again under the same seata
+		// context: the second attempt must be fenced like the first, so the delivery as a whole equals a single one
+		if e := tx.Rollback(); e != nil {
+			return fmt.Errorf("rollback of the first attempt: %w", e)
+		}
+		if tx, err = fenceDB.BeginTx(ctx, nil); err != nil {
+			return fmt.Errorf("begin (second attempt): %w", err)
+		}
+		if _, e := tx.ExecContext(ctx, "UPDATE biz SET "+colOf[a.Op]+" = "+colOf[a.Op]+" + 1 WHERE k = ?", b.Key); e != nil {
+			tx.Rollback()
+			return e
+		}
+	}
 	return tx.Commit()
 }
+
+// driverRetry makes every delivery through the fence driver a rolled-back attempt followed by a committed one (sixth-round seed).
+var driverRetry bool
 
 // deliverAPI runs one delivery the way an application uses the fence API: one local transaction, WithFence, commit or roll back.
 func deliverAPI(a Action) (err error) {
@@ -543,7 +560,7 @@ func races(r *rep.Run, paths map[string][]string, bound int) {
 
 func Run(r *rep.Run) {
 	thorough := r.Tier == "thorough"
-	r.Rule = "BFS to a fixpoint (depth bound 8 quick / 12 thorough) over deliveries {prepare, commit, rollback} x 2 branches (thorough: 3, incl. same branch id under another xid) sharing the fence table, real fence.WithFence in a real database/sql transaction on memdb, states = (fence status, try/confirm/cancel counters) per branch, every transition compared with a 5-state reference automaton; from every reachable state every delivery with a database error at each statement; from every reachable state (other branches idle) every pair of deliveries for one branch raced on two threads, all interleavings at statement granularity with at most `bound` preemptions (quick 2, thorough 4). The same BFS and fault enumeration (two branches) through a *sql.DB opened on the fence driver, and with commit / rollback delivered through the TCC resource manager (fresh context per delivery; one caller-shared seata context)."
+	r.Rule = "BFS to a fixpoint (depth bound 8 quick / 12 thorough) over deliveries {prepare, commit, rollback} x 2 branches (thorough: 3, incl. same branch id under another xid) sharing the fence table, real fence.WithFence in a real database/sql transaction on memdb, states = (fence status, try/confirm/cancel counters) per branch, every transition compared with a 5-state reference automaton; from every reachable state every delivery with a database error at each statement; from every reachable state (other branches idle) every pair of deliveries for one branch raced on two threads, all interleavings at statement granularity with at most `bound` preemptions (quick 2, thorough 4). The same BFS and fault enumeration (two branches) through a *sql.DB opened on the fence driver (the BFS once more with every delivery as a locally rolled-back attempt followed by a second attempt under the same seata context), and with commit / rollback delivered through the TCC resource manager (fresh context per delivery; one caller-shared seata context)."
 	r.Assume = []string{"memdb: row locks of SELECT ... FOR UPDATE (also on a missing row: none, as in MySQL without gap locks on a unique miss), duplicate key 1062, deadlock detection", "the application wraps each delivery in one local transaction and commits iff WithFence returned nil (the documented usage)"}
 	var err error
 	env, err = sys.NewEnv([]string{fenceDDL, bizDDL}, sys.Options{NoAT: true, NoXA: true})
@@ -626,6 +643,10 @@ func Run(r *rep.Run) {
 	nb2 := 2
 	dpaths := bfs(r, nb2, depth)
 	faults(r, dpaths, nb2)
+	// ... every delivery as a locally rolled-back attempt plus a second attempt under the same context
+	driverRetry, pathTag = true, "driver-retry:"
+	bfs(r, nb2, depth)
+	driverRetry, pathTag = false, "driver:"
 	// ... and with commit / rollback deliveries through the TCC resource manager
 	if _, err := tcc.NewTCCServiceProxy(fenceAction{}); err != nil {
 		r.Broken = "register fence action: " + err.Error()
